@@ -119,18 +119,23 @@ def _recording(ti, store):
             raise AnalysisTimeout()
         if self._visits >= visit_cap(len(self.graph.index)):
             raise AnalysisTimeout()       # deterministic cap: converging runs on these programs need a few hundred visits
-        a = node.ast_node
-        inf = last.get('inf')
-        if isinstance(a, ast.Assign) and inf is not None:
-            typed = {str(k_) for k_ in inf.new_symbols}
-            tin = {str(k_) for k_ in inf.types_in.types}
-            kept = self._stale_kept.setdefault(id(node), set())
-            for x in stored_names(a):
-                if x in typed:
-                    if x in kept:
-                        self._nonmono.add(x)
-                elif x in tin:
-                    kept.add(x)
+        # NON-MONOTONE step of this node's transfer function, witnessed by two states the run visited: types_in grew
+        # (key-wise superset) but types_out did not.  On the pinned tree this happens when a value of unknown type
+        # becomes known (the target's stale set is replaced by strong update) or when the resolver's answer becomes
+        # unknown / narrower for larger argument sets; a broken join or work list does not produce it (there types_in
+        # itself shrinks).
+        tin = {str(k_): frozenset(v_) for k_, v_ in self.in_[node].types.items()}
+        tout = {str(k_): frozenset(v_) for k_, v_ in self.out[node].types.items()}
+        hist = self._stale_kept.setdefault(id(node), [])
+        for (pin, pout) in hist:
+            if all(k_ in tin and v_ <= tin[k_] for k_, v_ in pin.items()):
+                for k_, v_ in pout.items():
+                    if not (k_ in tout and v_ <= tout[k_]):
+                        self._nonmono.add(k_)
+        if (tin, tout) not in hist:
+            hist.append((tin, tout))
+            if len(hist) > 8:
+                del hist[1]
         return res
     cls.__init__, cls.visit_node, ti.StmtInferrer.__init__ = init, visit_node, inf_init
     try:
@@ -418,7 +423,7 @@ def _own_exprs(s):
     return [s]
 
 
-DIVERGENCE_CLASS = 'no_fixed_point_nonmonotone_untyped_assignment'
+DIVERGENCE_CLASS = 'no_fixed_point_nonmonotone_transfer'
 UNBOUNDED_CLASS = 'no_fixed_point_unbounded_product_types'
 CLASS_ORDER = ['retyped_by_untracked_binder', 'retyped_by_untyped_assignment', 'nonlocal_rebound_in_callee',
                'retyped_by_local_call_side_effect', 'captured_var_rebound_by_calling_statement',
